@@ -5,6 +5,8 @@ import Driver.Sexp
 
 `pat<TAB>sel<TAB>env<TAB>cases<TAB>values`  → `ok r₁ | r₂ | …`, one result per value:
     `else` or `<index> (x v) (y v) …` (distinct variables of the selected pattern, sorted)
+`pat<TAB>csel<TAB>env<TAB>cases<TAB>values` → the same through the mirror of the compiled matcher (`cmatch`):
+    variables hold what the bytecode stored, `stale` when never stored
 `pat<TAB>cov<TAB>literalOnly(0|1)<TAB>env<TAB>cases<TAB>type` → `ok true|false`   (`covers`)
 `pat<TAB>pty<TAB>env<TAB>pattern<TAB>type<TAB>values` → `ok b₁ b₂ …` (`hasTy vᵢ (patTy p type)`)
 
@@ -156,12 +158,27 @@ def showSel (cases : List Pat) : Option (Nat × Bindings) → String
         | some v => s!" ({x} {showV v})"
         | none => s!" ({x} ?)")
 
+def showCSel (cases : List Pat) : Option (Nat × Writes) → String
+  | none => "else"
+  | some (i, w) =>
+    match cases[i]? with
+    | none => "bad-index"
+    | some p =>
+      toString i ++ String.join ((sortedVars p).map fun x =>
+        match w.slot x with
+        | .val v => s!" ({x} {showV v})"
+        | .stale => s!" ({x} stale)")
+
 def parse1 {α} (f : Sexp → Option α) (s : String) : Option α := (Sexp.parse s).bind f
 
 def handle : List String → String
   | ["sel", env, cases, values] =>
     match parse1 pEnv env, parse1 (pList pPat) cases, parse1 (pList pValue) values with
     | some ρ, some cs, some vs => "ok " ++ joinWith " | " (vs.map fun v => showSel cs (select ρ cs v))
+    | _, _, _ => "bad-op"
+  | ["csel", env, cases, values] =>
+    match parse1 pEnv env, parse1 (pList pPat) cases, parse1 (pList pValue) values with
+    | some ρ, some cs, some vs => "ok " ++ joinWith " | " (vs.map fun v => showCSel cs (cselect ρ cs v))
     | _, _, _ => "bad-op"
   | ["cov", lo, env, cases, ty] =>
     match parse1 pEnv env, parse1 (pList pPat) cases, parse1 pTy ty with
